@@ -83,11 +83,23 @@ def classifyAof (point : String) (now2 : Int) (log : Bytes) (preEmpty : Bool) (p
   else if badMarker then "unreadable-select-header-hides-log"
   else if cmds.any isRelExpiry then "relative-expiry-replayed-at-restore-time"
   else if cmds.any (fun c => match absDeadlineOf c with | some t => decide (t ≤ now2) | none => false) then "deadline-passed-before-replay"
-  else if cmds.any (fun c => toLower (c.headD []) == b "spop") then "random-command-replayed"
   else if injected then "write-during-rewrite-erased"
   else if inRewriteWindow && cmds.length > 1 then "rewrite-crash-window-replays-old-log"
   else if (match copySrc with | some s => !preEmpty && stateLossy now2 s | none => false) then "preamble-retypes-values"
+  -- last: a fresh random choice changes which members a set holds, never which keys exist
+  else if cmds.any (fun c => toLower (c.headD []) == b "spop") then "random-command-replayed"
   else "-"
+
+/-- placement of the live keys: which key lives in which logical database (C20's persistence leg) -/
+def placement (now : Int) (s : State) : List (Nat × Bytes) :=
+  (digest now s).map fun r => (r.1, r.2.1)
+
+def placementVerdict (point kind : String) (now2 : Int) (cands : List State) (r : Option State) : String :=
+  if point != "boundary" then "na" else
+  match kind, r with
+  | "ok", some rs => if cands.any (fun s => placement now2 s == placement now2 rs) then "adm" else "rej:key-placement-not-preserved"
+  | "undumpable", _ => "na"
+  | k, _ => s!"rej:restart-{k}"
 
 def pTail (mode : String) : P (Option (Int × State) × Int × List Int × List State × String × Int × Option State) := do
   let _ := mode
@@ -155,7 +167,7 @@ def verdictAof (id point : String) (now2 : Int) (inj stuck : Bool) (nrw : Nat) :
   -- C02 judges every restart of a stopped server (command boundaries) and every crash of a history without
   -- rewrite; C09 judges everything from the first rewrite on
   let own := if nrw == 0 then "C02" else if point == "boundary" || point == "redurable" then "C02+C09" else "C09"
-  pure s!"{id} {modelV} ## dur={dur} dcls={cls} own={own} pt={point} jr={jr} ncand={cands.length}"
+  pure s!"{id} {modelV} ## dur={dur} dcls={cls} own={own} pt={point} jr={jr} ncand={cands.length} iso={placementVerdict point kind now2 cands r} cls={cls}"
 
 /-- classes of snapshot images on which the unchanged code is known to lose or change data -/
 def classifySnap (point : String) (now2 : Int) (manifestOk : Bool) (dangling : Bool) (copySrc : Option State) (cands : List State) (stuck : Bool) : String :=
@@ -228,7 +240,7 @@ def verdictSnap (id point : String) (now2 : Int) (stuck : Bool) : P String := do
   let cls := if liveBad then "-" else classifySnap point now2 (mdec == 1 || mf.isNone) dangling (copy.map (·.2)) cands stuck
   -- C03 judges restarts of a stopped server; C10 judges crash images and what a (failed) attempt leaves behind
   let own := if point == "start" then "C03" else if point == "boundary" then "C03+C10" else "C10"
-  pure s!"{id} {modelV} ## dur={dur} dcls={cls} own={own} pt={point} jr={jr} ncand={cands.length}"
+  pure s!"{id} {modelV} ## dur={dur} dcls={cls} own={own} pt={point} jr={jr} ncand={cands.length} iso={placementVerdict point kind now2 cands r} cls={cls}"
 
 /-- S lines: the automatic snapshot trigger. `S id threshold changes fired` -/
 def verdictS (line : String) : String :=
